@@ -7,12 +7,12 @@ poll loop and time-out of the profile.
 """
 import canopen
 from canopen import objectdictionary as odm
-from canopen.profiles.p402 import BaseNode402, OperationMode
+from canopen.profiles.p402 import BaseNode402
 
 from simcan import world
 from simcan.bus import PeerEndpoint
 from simcan.core import MS, SEC, US
-from simcan.models.drive402 import (RefDrive402, decode_statusword, STATES, NRTSO, SOD, RTSO, SO, OE, QSA, FRA, FAULT)
+from simcan.models.drive402 import (RefDrive402, decode_statusword, STATES, NRTSO, SOD, RTSO, SO, OE, QSA, FRA, FAULT, MODE_CODES, MODE_SUPPORT_BIT)
 from simcan.util import call, site
 
 ID = "C19"
@@ -46,7 +46,7 @@ FAULT_PROBES = {'auto-transition-during-assignment': 'drive-changes-state-on-its
 TRANSPORTS = ("sdo", "pdo-event", "pdo-periodic")
 COMMANDABLE = (SOD, RTSO, SO, OE, QSA)
 AUTO = (100 * US, 400 * US, 700 * US, 1000 * US, 1300 * US, 5 * MS, 60 * MS, 150 * MS)
-MODES = sorted(OperationMode.NAME2CODE)
+MODES = sorted(MODE_CODES)      # (reference table of the drive model, not the library's)
 
 
 def jobs(tier, seed):
@@ -256,8 +256,8 @@ def scenario(ctx):
         w.setup(SOD)
         node, d = w.node, w.drive
         for name in MODES:
-            code = OperationMode.NAME2CODE[name]
-            bits = OperationMode.SUPPORTED[name]
+            code = MODE_CODES[name]
+            bits = MODE_SUPPORT_BIT[name]
             ok = supported & bits == bits
             nw = len(d.mode_writes)
 
@@ -305,6 +305,14 @@ def scenario(ctx):
                 # is still on the wire); the automatic transition to FAULT happens
                 # either before or during that assignment
                 ctx.run_for(w.drive.auto_delay + 12 * MS if ctx.choice(2, "waitfault") else 1 * MS)
+                if w.drive.transport == "pdo-periodic":
+                    ctx.run_for(w.drive.period)
+            elif k > 0 and ctx.choice(5, "restart") == 0:
+                # the drive is power-cycled between two assignments: its controlword register is 0 again and it reports
+                # NOT READY TO SWITCH ON, then SWITCH ON DISABLED (reported before the next assignment starts, or during it)
+                w.drive.restart()
+                ctx.fault("drive-restarts")
+                ctx.run_for(w.drive.auto_delay + 12 * MS if ctx.choice(2, "waitrestart") else 1 * MS)
                 if w.drive.transport == "pdo-periodic":
                     ctx.run_for(w.drive.period)
             tgt = STATES[ctx.choice(8, "target")] if ctx.choice(4, "anytarget") == 0 else COMMANDABLE[ctx.choice(5, "ctarget")]
